@@ -37,6 +37,15 @@ func (in *Interp) expr(e ast.Expr) Value {
 		return in.lvalue(x).V
 	case *ast.SelectorExpr:
 		if sel, ok := info.Selections[x]; ok && sel.Kind() == types.MethodVal {
+			// a method value of a module type: the method bound to its receiver (a value receiver is copied now)
+			fn := sel.Obj().(*types.Func)
+			if _, isIface := sel.Recv().Underlying().(*types.Interface); !isIface && fn.Pkg() != nil && strings.HasPrefix(fn.Pkg().Path(), "github.com/brocaar/lorawan") {
+				rc, rv := in.methodReceiver(x, sel, x)
+				if _, ptrRecv := fn.Type().(*types.Signature).Recv().Type().(*types.Pointer); !ptrRecv && rc != nil {
+					rv, rc = Copy(rc.V), nil
+				}
+				return &FuncVal{Bound: fn, RecvCell: rc, RecvVal: rv}
+			}
 			in.fail(x, "method value")
 		}
 		if sel, ok := info.Selections[x]; ok && sel.Kind() == types.MethodExpr {
@@ -784,52 +793,7 @@ func (in *Interp) call(x *ast.CallExpr) Value {
 				}
 				return single(in.foreign(fn, rv, x))
 			}
-			// receiver through the selection path (embedded fields)
-			var recvCell *Cell
-			var recvVal Value
-			if in.addressable(sel.X) {
-				recvCell = in.lvalue(sel.X)
-			} else {
-				recvVal = in.expr(sel.X)
-			}
-			if recvCell != nil {
-				if p, ok := recvCell.V.(*Ptr); ok {
-					recvCell = p.To
-				}
-			}
-			if len(s.Index()) > 1 {
-				// promoted method: walk the embedded fields to the value that declares it
-				if recvCell == nil {
-					recvCell = &Cell{V: recvVal}
-					if p, ok := recvVal.(*Ptr); ok {
-						recvCell = p.To
-					}
-					recvVal = nil
-				}
-				T := info.TypeOf(sel.X)
-				for _, fi := range s.Index()[:len(s.Index())-1] {
-					if pt, isP := T.Underlying().(*types.Pointer); isP {
-						T = pt.Elem()
-					}
-					st, okS := T.Underlying().(*types.Struct)
-					sv, okV := recvCell.V.(*Struct)
-					if !okS || !okV {
-						in.fail(x, "promoted method through a %T", recvCell.V)
-					}
-					f := st.Field(fi)
-					recvCell = sv.F[f.Name()]
-					if recvCell == nil {
-						in.fail(x, "embedded field %s missing", f.Name())
-					}
-					T = f.Type()
-					if p, ok := recvCell.V.(*Ptr); ok {
-						recvCell = p.To
-						if pt, isP := T.Underlying().(*types.Pointer); isP {
-							T = pt.Elem()
-						}
-					}
-				}
-			}
+			recvCell, recvVal := in.methodReceiver(sel, s, x)
 			return single(in.callFunc(fn, recvCell, recvVal, in.argsPacked(x, fn.Type().(*types.Signature))))
 		}
 		// package-qualified function
@@ -1071,4 +1035,56 @@ func (in *Interp) builtin(name string, x *ast.CallExpr) Value {
 	}
 	in.fail(x, "builtin %s", name)
 	return nil
+}
+
+// methodReceiver resolves the receiver of a (possibly promoted) method of a module type selected by sel.
+func (in *Interp) methodReceiver(sel *ast.SelectorExpr, s *types.Selection, x ast.Node) (*Cell, Value) {
+	info := in.info()
+	// receiver through the selection path (embedded fields)
+	var recvCell *Cell
+	var recvVal Value
+	if in.addressable(sel.X) {
+		recvCell = in.lvalue(sel.X)
+	} else {
+		recvVal = in.expr(sel.X)
+	}
+	if recvCell != nil {
+		if p, ok := recvCell.V.(*Ptr); ok {
+			recvCell = p.To
+		}
+	}
+	if len(s.Index()) > 1 {
+		// promoted method: walk the embedded fields to the value that declares it
+		if recvCell == nil {
+			recvCell = &Cell{V: recvVal}
+			if p, ok := recvVal.(*Ptr); ok {
+				recvCell = p.To
+			}
+			recvVal = nil
+		}
+		T := info.TypeOf(sel.X)
+		for _, fi := range s.Index()[:len(s.Index())-1] {
+			if pt, isP := T.Underlying().(*types.Pointer); isP {
+				T = pt.Elem()
+			}
+			st, okS := T.Underlying().(*types.Struct)
+			sv, okV := recvCell.V.(*Struct)
+			if !okS || !okV {
+				in.fail(x, "promoted method through a %T", recvCell.V)
+			}
+			f := st.Field(fi)
+			recvCell = sv.F[f.Name()]
+			if recvCell == nil {
+				in.fail(x, "embedded field %s missing", f.Name())
+			}
+			T = f.Type()
+			if p, ok := recvCell.V.(*Ptr); ok {
+				recvCell = p.To
+				if pt, isP := T.Underlying().(*types.Pointer); isP {
+					T = pt.Elem()
+				}
+			}
+		}
+	}
+	return recvCell, recvVal
 }
